@@ -30,22 +30,23 @@ Lemma nstatic_val : nstatic = 18%nat. Proof. reflexivity. Qed.
 Lemma static_priv_ok n : (s_id (static_priv n) < nstatic)%nat /\ rd statics (static_priv n) = net_ver true n.
 Proof.
   unfold static_priv, net_ver. rewrite nets_len, nstatic_val.
-  pose proof (Nat.mod_upper_bound n 6 ltac:(discriminate)) as Hm. revert Hm. generalize (n mod 6)%nat. intros m Hm.
+  pose proof (Nat.mod_upper_bound n 6 (Nat.neq_succ_0 5)) as Hm. revert Hm. generalize (n mod 6)%nat. intros m Hm.
   do 6 (destruct m as [|m]; [split; [cbn [s_id sub]; lia | reflexivity]|]). lia.
 Qed.
 
 Lemma static_pub_ok n : (s_id (static_pub n) < nstatic)%nat /\ rd statics (static_pub n) = net_ver false n.
 Proof.
   unfold static_pub, net_ver. rewrite nets_len, nstatic_val.
-  pose proof (Nat.mod_upper_bound n 6 ltac:(discriminate)) as Hm. revert Hm. generalize (n mod 6)%nat. intros m Hm.
+  pose proof (Nat.mod_upper_bound n 6 (Nat.neq_succ_0 5)) as Hm. revert Hm. generalize (n mod 6)%nat. intros m Hm.
   do 6 (destruct m as [|m]; [split; [cbn [s_id sub]; lia | reflexivity]|]). lia.
 Qed.
 
 Lemma priv_to_pub_ok v vs q : priv_to_pub v = Some (vs, q) -> (s_id vs < nstatic)%nat /\ rd statics vs = q.
 Proof.
   unfold priv_to_pub, hd_priv_to_pub. rewrite nstatic_val. cbn [find_ver].
-  repeat (destruct (list_eqb _ v); [intros H; injection H as <- <-; split; [cbn [s_id sub length]; rewrite nets_len; lia | reflexivity]|]).
-  discriminate.
+  repeat (destruct (list_eqb _ v); cbv iota beta;
+          [intros H; injection H as <- <-; split; [cbn [s_id sub length]; lia | reflexivity]|]).
+  intros H; discriminate H.
 Qed.
 
 (* ---------- the invariant ---------- *)
@@ -56,6 +57,8 @@ Hypothesis parse_pub_nil : exists e, d_parse_pub D [] = Err e.
 
 Definition memo_ok (h : heap) (k : xkey) : Prop :=
   x_priv k = true -> length (rdo h (x_pub k)) <> 0%nat -> rdo h (x_pub k) = d_pub_of_priv D (rdo h (x_key k)).
+
+Definition dead_key (k : xkey) : Prop := x_key k = None /\ x_priv k = false /\ x_depth k = 0.
 
 Record inv (s : state) (ds : list (option deriv)) : Prop := {
   i_len : length (st_keys s) = length ds;
@@ -72,7 +75,7 @@ Record inv (s : state) (ds : list (option deriv)) : Prop := {
   i_live : forall j d, nth_error ds j = Some (Some d) ->
             exists k, nth_error (st_keys s) j = Some k /\ eval D d = Ok (view (st_heap s) k) /\ memo_ok (st_heap s) k;
   i_dead : forall j, nth_error ds j = Some None ->
-            exists k, nth_error (st_keys s) j = Some k /\ x_key k = None /\ x_priv k = false
+            exists k, nth_error (st_keys s) j = Some k /\ dead_key k
 }.
 
 Lemma rd_static h s : (forall i, (i < nstatic)%nat -> nth i h [] = nth i statics []) -> (s_id s < nstatic)%nat -> rd h s = rd statics s.
@@ -80,11 +83,16 @@ Proof. intros H Hs. unfold rd. rewrite H by exact Hs. reflexivity. Qed.
 
 Lemma inv_init : inv init [].
 Proof.
-  constructor; cbn [init st_heap st_keys]; try (intros; contradiction); try reflexivity.
-  - unfold nstatic. lia.
-  - intros; destruct j; discriminate.
-  - intros j d H. destruct j; discriminate.
-  - intros j H. destruct j; discriminate.
+  constructor; cbn [init st_heap st_keys].
+  - reflexivity.
+  - apply Nat.le_refl.
+  - reflexivity.
+  - intros k a [].
+  - intros k a [].
+  - intros j j' k k' a b _ H. destruct j; discriminate H.
+  - intros k k' a v [].
+  - intros j d H. destruct j; discriminate H.
+  - intros j H. destruct j; discriminate H.
 Qed.
 
 (* views are stable under allocation *)
@@ -122,16 +130,19 @@ Proof.
             view h1 xk1 = view h xk /\ xk1 = xk /\ h1 = h /\ pbs' = pbs).
   { intros pbs' E'. injection E' as <- <- <-. rewrite (set_nth_id _ _ _ Hk). auto 10. }
   destruct (x_priv xk) eqn:Hp; cbn [negb] in E.
-  2:{ destruct (Hsame _ E) as (H1 & H2 & H3 & -> & -> & <-). repeat split; auto; try discriminate.
-      - unfold pub_val. reflexivity.
-      - exists []. symmetry. apply app_nil_r. }
+  2:{ destruct (Hsame _ E) as (H1 & H2 & H3 & -> & -> & <-).
+      split; [exact H1|]. split; [exact H2|]. split; [exact H3|]. split; [reflexivity|].
+      do 7 (split; [first [reflexivity | assumption | congruence]|]). split; [intros; congruence|]. split; [intros; congruence|].
+      exists []. symmetry. apply app_nil_r. }
   destruct (Nat.eqb_spec (length (rdo h (x_pub xk))) (litn lits_ExtendedKey_pubKeyBytes 0)) as [Hz|Hnz].
-  2:{ destruct (Hsame _ E) as (H1 & H2 & H3 & -> & -> & <-). repeat split; auto; try congruence.
-      - unfold pub_val. destruct Hds as [Hd|[d Hd]].
-        + destruct (i_dead _ _ I k Hd) as (k0 & Hk0 & _ & Hpf). cbn [st_keys] in Hk0. congruence.
+  2:{ destruct (Hsame _ E) as (H1 & H2 & H3 & -> & -> & <-).
+      split; [exact H1|]. split; [exact H2|]. split; [exact H3|]. split.
+      { unfold pub_val. destruct Hds as [Hd|[d Hd]].
+        + destruct (i_dead _ _ I k Hd) as (k0 & Hk0 & _ & Hpf & _). cbn [st_keys] in Hk0. congruence.
         + destruct (i_live _ _ I k d Hd) as (k0 & Hk0 & _ & Hm). cbn [st_keys st_heap] in *.
-          assert (k0 = xk) by congruence. subst k0. apply Hm; [exact Hp|]. exact Hnz.
-      - exists []. symmetry. apply app_nil_r. }
+          assert (k0 = xk) by congruence. subst k0. apply Hm; [exact Hp|]. exact Hnz. }
+      do 7 (split; [first [reflexivity | assumption | congruence]|]). split; [intros; congruence|]. split; [intros; congruence|].
+      exists []. symmetry. apply app_nil_r. }
   (* memoise *)
   injection E as <- <- <-.
   set (pb := d_pub_of_priv D (rdo h (x_key xk))).
@@ -151,7 +162,9 @@ Proof.
     - rewrite set_nth_other in Hy by auto. auto. }
   assert (Hview : view (h ++ [pb]) nk = view h xk).
   { transitivity (view (h ++ [pb]) xk); [reflexivity|]. apply view_app. exact Hb. }
-  split; [|repeat split; auto].
+  split; [|split; [apply set_nth_same; exact Hlt|]; split; [exact Hview|]; split;
+             [cbn [rdo]; rewrite Hnew; unfold pub_val; reflexivity|];
+             do 7 (split; [first [reflexivity | assumption | congruence]|]); split; [intros; reflexivity|]; split; [intros; congruence|]; exists [pb]; reflexivity].
   - constructor; cbn [st_heap st_keys].
     + rewrite set_nth_length. apply (i_len _ _ I).
     + rewrite app_length. pose proof (i_nst _ _ I). cbn [st_heap] in *. lia.
@@ -159,23 +172,23 @@ Proof.
     + intros y a Hy Ha. rewrite app_length. cbn [length].
       destruct (Hin y Hy) as [->|Hy'].
       * apply in_app_iff in Ha. destruct Ha as [Ha|Ha].
-        -- destruct (Hown a Ha) as [Ha'|->]; [|cbn [whole s_id]; lia].
+        -- destruct (Hown a Ha) as [Ha'| ->]; [|cbn [whole s_id]; lia].
            specialize (Hb a ltac:(apply in_app_iff; auto)). lia.
         -- rewrite Hvn in Ha. specialize (Hb a ltac:(apply in_app_iff; auto)). lia.
       * pose proof (i_bound _ _ I y a Hy' Ha). cbn [st_heap] in *. lia.
     + intros y a Hy Ha. destruct (Hin y Hy) as [->|Hy'].
-      * destruct (Hown a Ha) as [Ha'|->].
+      * destruct (Hown a Ha) as [Ha'| ->].
         -- apply (i_dyn _ _ I xk a); [apply (nth_error_In' _ _ _ Hk) | exact Ha'].
         -- cbn [whole s_id]. apply (i_nst _ _ I).
       * apply (i_dyn _ _ I y a Hy' Ha).
     + intros j j' y y' a b Hjj Hy Hy' Ha Hbb.
-      destruct (Hget _ _ Hy) as [[-> ->]|[Hj Hyo]]; destruct (Hget _ _ Hy') as [[-> ->]|[Hj' Hyo']]; try congruence.
+      destruct (Hget _ _ Hy) as [(-> & ->)|(Hj & Hyo)]; destruct (Hget _ _ Hy') as [(-> & ->)|(Hj' & Hyo')]; try congruence.
       * (* b in nk (slot k), a in y' (other) *)
-        destruct (Hown b Hbb) as [Hb'|->].
+        destruct (Hown b Hbb) as [Hb'| ->].
         -- apply (i_sep1 _ _ I k j' xk y' a b); auto.
         -- left. cbn [whole s_id]. pose proof (i_bound _ _ I y' a (nth_error_In' _ _ _ Hyo') ltac:(apply in_app_iff; auto)).
            cbn [st_heap] in *. lia.
-      * destruct (Hown a Ha) as [Ha'|->].
+      * destruct (Hown a Ha) as [Ha'| ->].
         -- apply (i_sep1 _ _ I j k y xk a b); auto.
         -- left. cbn [whole s_id]. pose proof (i_bound _ _ I y b (nth_error_In' _ _ _ Hyo) ltac:(apply in_app_iff; auto)).
            cbn [st_heap] in *. lia.
@@ -185,7 +198,7 @@ Proof.
       { destruct (Hin y Hy) as [->|Hy0]; [exists xk; split; [apply (nth_error_In' _ _ _ Hk) | exact Hv] | exists y; auto]. }
       destruct Hv' as (y0 & Hy0 & Hv0).
       destruct (Hin y' Hy') as [->|Hy0'].
-      * destruct (Hown a Ha) as [Ha'|->].
+      * destruct (Hown a Ha) as [Ha'| ->].
         -- apply (i_sep2 _ _ I y0 xk a v); auto. apply (nth_error_In' _ _ _ Hk).
         -- left. cbn [whole s_id]. pose proof (i_bound _ _ I y0 v Hy0 ltac:(apply in_app_iff; auto)). cbn [st_heap] in *. lia.
       * apply (i_sep2 _ _ I y0 y' a v); auto.
@@ -199,14 +212,553 @@ Proof.
         assert (Hby : forall a, In a (owned y ++ vers y) -> (s_id a < length h)%nat).
         { intros a Ha. apply (i_bound _ _ I y a (nth_error_In' _ _ _ Hy) Ha). }
         split; [rewrite view_app by exact Hby; exact Hev | apply memo_app; assumption].
-    + intros j Hd. destruct (i_dead _ _ I j Hd) as (y & Hy & Hkn & Hpf). cbn [st_keys] in *.
-      destruct (Nat.eq_dec j k) as [->|Hne]; [congruence|].
+    + intros j Hd. destruct (i_dead _ _ I j Hd) as (y & Hy & Hdk). cbn [st_keys] in *.
+      destruct (Nat.eq_dec j k) as [->|Hne]; [destruct Hdk as (_ & Hpf & _); congruence|].
       exists y. rewrite set_nth_other by auto. auto.
-  - apply set_nth_same. exact Hlt.
-  - cbn [rdo]. rewrite Hnew. unfold pub_val. reflexivity.
-  - intros _. reflexivity.
-  - discriminate.
-  - exists [pb]. reflexivity.
+Qed.
+
+(* ---------- (b) a new key on fresh buffers joins the pool ---------- *)
+Lemma nth_error_snoc {A} (l : list A) x j y : nth_error (l ++ [x]) j = Some y ->
+  ((j < length l)%nat /\ nth_error l j = Some y) \/ (j = length l /\ y = x).
+Proof.
+  intros H. destruct (Nat.lt_ge_cases j (length l)) as [Hl|Hl].
+  - rewrite nth_error_app1 in H by exact Hl. auto.
+  - rewrite nth_error_app2 in H by exact Hl. destruct (j - length l)%nat eqn:E.
+    + cbn in H. injection H as <-. right. split; [lia|reflexivity].
+    + cbn in H. destruct n; discriminate.
+Qed.
+
+Lemma memo_none h k : x_pub k = None -> memo_ok h k.
+Proof. intros E. unfold memo_ok. rewrite E. cbn [rdo length]. intros _ H. contradiction. Qed.
+
+Lemma inv_push s ds nk d ext :
+  inv s ds ->
+  (forall a, In a (owned nk) -> (length (st_heap s) <= s_id a < length (st_heap s) + length ext)%nat) ->
+  (forall v, In v (vers nk) ->
+      (s_id v < nstatic)%nat \/ (exists y, In y (st_keys s) /\ In v (vers y)) \/
+      ((length (st_heap s) <= s_id v < length (st_heap s) + length ext)%nat /\ forall a, In a (owned nk) -> disj a v)) ->
+  eval D d = Ok (view (st_heap s ++ ext) nk) ->
+  x_pub nk = None ->
+  inv {| st_heap := st_heap s ++ ext; st_keys := st_keys s ++ [nk] |} (ds ++ [Some d]).
+Proof.
+  intros I Hown Hver Hev Hpub. destruct s as [h ks]. cbn [st_heap st_keys] in *.
+  pose proof (i_nst _ _ I) as Hnst. cbn [st_heap] in Hnst.
+  assert (Hbo : forall y a, In y ks -> In a (owned y ++ vers y) -> (s_id a < length h)%nat) by (intros y a; apply (i_bound _ _ I)).
+  assert (Hin : forall y, In y (ks ++ [nk]) -> In y ks \/ y = nk).
+  { intros y Hy. apply in_app_iff in Hy. destruct Hy as [|[<-|[]]]; auto. }
+  assert (Hvb : forall v, In v (vers nk) -> (s_id v < length h + length ext)%nat).
+  { intros v Hv. destruct (Hver v Hv) as [H|[(y & Hy & Hvy)|[H _]]]; [lia| |lia].
+    specialize (Hbo y v Hy ltac:(apply in_app_iff; auto)). lia. }
+  constructor; cbn [st_heap st_keys].
+  - rewrite !app_length. cbn [length]. pose proof (i_len _ _ I) as Hlen. cbn [st_keys] in Hlen. lia.
+  - rewrite app_length. lia.
+  - intros i Hi. rewrite app_nth1 by lia. apply (i_stat _ _ I i Hi).
+  - intros y a Hy Ha. rewrite app_length. destruct (Hin y Hy) as [Hy'| ->].
+    + specialize (Hbo y a Hy' Ha). lia.
+    + apply in_app_iff in Ha. destruct Ha as [Ha|Ha]; [specialize (Hown a Ha); lia | apply Hvb; exact Ha].
+  - intros y a Hy Ha. destruct (Hin y Hy) as [Hy'| ->]; [apply (i_dyn _ _ I y a Hy' Ha)|]. specialize (Hown a Ha). lia.
+  - intros j j' y y' a b Hjj Hy Hy' Ha Hb.
+    destruct (nth_error_snoc _ _ _ _ Hy) as [[Hl Hyo]|[-> ->]]; destruct (nth_error_snoc _ _ _ _ Hy') as [[Hl' Hyo']|[-> ->]].
+    + apply (i_sep1 _ _ I j j' y y' a b); auto.
+    + left. specialize (Hown a Ha). specialize (Hbo y b (nth_error_In' _ _ _ Hyo) ltac:(apply in_app_iff; auto)). lia.
+    + left. specialize (Hown b Hb). specialize (Hbo y' a (nth_error_In' _ _ _ Hyo') ltac:(apply in_app_iff; auto)). lia.
+    + congruence.
+  - intros y y' a v Hy Hy' Ha Hv.
+    destruct (Hin y Hy) as [Hyo| ->]; destruct (Hin y' Hy') as [Hyo'| ->].
+    + apply (i_sep2 _ _ I y y' a v); auto.
+    + left. specialize (Hown a Ha). specialize (Hbo y v Hyo ltac:(apply in_app_iff; auto)). lia.
+    + destruct (Hver v Hv) as [H|[(y0 & Hy0 & Hvy)|[H _]]].
+      * left. pose proof (i_dyn _ _ I y' a Hyo' Ha). lia.
+      * apply (i_sep2 _ _ I y0 y' a v); auto.
+      * left. specialize (Hbo y' a Hyo' ltac:(apply in_app_iff; auto)). lia.
+    + destruct (Hver v Hv) as [H|[(y0 & Hy0 & Hvy)|[H Hd]]].
+      * left. specialize (Hown a Ha). lia.
+      * left. specialize (Hown a Ha). specialize (Hbo y0 v Hy0 ltac:(apply in_app_iff; auto)). lia.
+      * apply Hd. exact Ha.
+  - intros j d0 Hd. destruct (nth_error_snoc _ _ _ _ Hd) as [[Hl Hdo]|[-> E]].
+    + destruct (i_live _ _ I j d0 Hdo) as (y & Hy & Hev0 & Hm). cbn [st_heap st_keys] in *.
+      exists y. rewrite nth_error_app1 by (apply (nth_error_lt _ _ _ Hy)). split; [exact Hy|].
+      assert (Hby : forall a, In a (owned y ++ vers y) -> (s_id a < length h)%nat) by (intros a; apply Hbo; apply (nth_error_In' _ _ _ Hy)).
+      split; [rewrite view_app by exact Hby; exact Hev0 | apply memo_app; assumption].
+    + injection E as <-. exists nk. pose proof (i_len _ _ I) as Hlen. cbn [st_keys] in Hlen. rewrite <- Hlen.
+      rewrite nth_error_app2 by lia. rewrite Nat.sub_diag. split; [reflexivity|]. split; [exact Hev | apply memo_none; exact Hpub].
+  - intros j Hd. destruct (nth_error_snoc _ _ _ _ Hd) as [[Hl Hdo]|[_ E]]; [|discriminate].
+    destruct (i_dead _ _ I j Hdo) as (y & Hy & H1). cbn [st_keys] in *.
+    exists y. rewrite nth_error_app1 by (apply (nth_error_lt _ _ _ Hy)). auto.
+Qed.
+
+(* ---------- (c)/(d) one key is replaced; the heap keeps its shape; other keys' slices read the same ---------- *)
+Lemma view_frame h h' y : (forall b, In b (owned y ++ vers y) -> rd h' b = rd h b) ->
+  view h' y = view h y /\ (memo_ok h y -> memo_ok h' y).
+Proof.
+  intros Hf.
+  assert (Ho : forall o, (forall b, o = Some b -> In b (owned y ++ vers y)) -> rdo h' o = rdo h o).
+  { intros [b|] Hb; [|reflexivity]. cbn [rdo]. apply Hf. apply Hb. reflexivity. }
+  assert (Hk : rdo h' (x_key y) = rdo h (x_key y)) by (apply Ho; intros b E; apply in_app_iff; left; apply in_owned; auto).
+  assert (Hp : rdo h' (x_pub y) = rdo h (x_pub y)) by (apply Ho; intros b E; apply in_app_iff; left; apply in_owned; auto).
+  assert (Hc : rdo h' (x_cc y) = rdo h (x_cc y)) by (apply Ho; intros b E; apply in_app_iff; left; apply in_owned; auto).
+  assert (Hfp : rdo h' (x_fp y) = rdo h (x_fp y)) by (apply Ho; intros b E; apply in_app_iff; left; apply in_owned; auto 6).
+  assert (Hv : rdo h' (x_ver y) = rdo h (x_ver y)) by (apply Ho; intros b E; apply in_app_iff; right; apply in_vers; auto).
+  split.
+  - unfold view. rewrite Hk, Hc, Hfp, Hv. reflexivity.
+  - unfold memo_ok. rewrite Hk, Hp. auto.
+Qed.
+
+Lemma inv_replace s ds ds' k xk nk h' :
+  inv s ds -> nth_error (st_keys s) k = Some xk ->
+  length h' = length (st_heap s) -> (forall i, (i < nstatic)%nat -> nth i h' [] = nth i (st_heap s) []) ->
+  (forall a, In a (owned nk) -> In a (owned xk)) ->
+  (forall v, In v (vers nk) -> In v (vers xk) \/ (s_id v < nstatic)%nat) ->
+  length ds' = length ds -> (forall j, j <> k -> nth_error ds' j = nth_error ds j) ->
+  (forall j y, j <> k -> nth_error (st_keys s) j = Some y -> forall b, In b (owned y ++ vers y) -> rd h' b = rd (st_heap s) b) ->
+  ((exists d', nth_error ds' k = Some (Some d') /\ eval D d' = Ok (view h' nk) /\ memo_ok h' nk) \/
+   (nth_error ds' k = Some None /\ dead_key nk)) ->
+  inv {| st_heap := h'; st_keys := set_nth (st_keys s) k nk |} ds'.
+Proof.
+  intros I Hk Hlen Hst Hown Hver Hdl Hds Hfr Hkth. destruct s as [h ks]. cbn [st_heap st_keys] in *.
+  pose proof (nth_error_lt _ _ _ Hk) as Hlt. pose proof (nth_error_In' _ _ _ Hk) as Hkin.
+  pose proof (i_nst _ _ I) as Hnst. cbn [st_heap] in Hnst.
+  assert (Hin : forall y, In y (set_nth ks k nk) -> y = nk \/ In y ks) by (intros y; apply set_nth_In).
+  assert (Hget : forall j y, nth_error (set_nth ks k nk) j = Some y -> (j = k /\ y = nk) \/ (j <> k /\ nth_error ks j = Some y)).
+  { intros j y Hy. destruct (Nat.eq_dec j k) as [->|Hne].
+    - rewrite set_nth_same in Hy by exact Hlt. injection Hy as <-. auto.
+    - rewrite set_nth_other in Hy by auto. auto. }
+  constructor; cbn [st_heap st_keys].
+  - rewrite set_nth_length, Hdl. apply (i_len _ _ I).
+  - lia.
+  - intros i Hi. rewrite Hst by exact Hi. apply (i_stat _ _ I i Hi).
+  - intros y a Hy Ha. rewrite Hlen. destruct (Hin y Hy) as [->|Hy'].
+    + apply in_app_iff in Ha. destruct Ha as [Ha|Ha].
+      * apply (i_bound _ _ I xk a Hkin). apply in_app_iff. left. apply Hown. exact Ha.
+      * destruct (Hver a Ha) as [Ha'|Ha']; [|lia]. apply (i_bound _ _ I xk a Hkin). apply in_app_iff. auto.
+    + apply (i_bound _ _ I y a Hy' Ha).
+  - intros y a Hy Ha. destruct (Hin y Hy) as [->|Hy']; [apply (i_dyn _ _ I xk a Hkin); apply Hown; exact Ha | apply (i_dyn _ _ I y a Hy' Ha)].
+  - intros j j' y y' a b Hjj Hy Hy' Ha Hb.
+    destruct (Hget _ _ Hy) as [(-> & ->)|(Hj & Hyo)]; destruct (Hget _ _ Hy') as [(-> & ->)|(Hj' & Hyo')]; try congruence.
+    + apply (i_sep1 _ _ I k j' xk y' a b); auto.
+    + apply (i_sep1 _ _ I j k y xk a b); auto.
+    + apply (i_sep1 _ _ I j j' y y' a b); auto.
+  - intros y y' a v Hy Hy' Ha Hv.
+    assert (Ha' : exists y0, In y0 ks /\ In a (owned y0)).
+    { destruct (Hin y' Hy') as [->|Hy0]; [exists xk; split; [exact Hkin | apply Hown; exact Ha] | exists y'; auto]. }
+    destruct Ha' as (y0' & Hy0' & Ha0).
+    destruct (Hin y Hy) as [->|Hy0].
+    + destruct (Hver v Hv) as [Hv'|Hv'].
+      * apply (i_sep2 _ _ I xk y0' a v); auto.
+      * left. pose proof (i_dyn _ _ I y0' a Hy0' Ha0). lia.
+    + apply (i_sep2 _ _ I y y0' a v); auto.
+  - intros j d Hd. destruct (Nat.eq_dec j k) as [->|Hne].
+    + destruct Hkth as [(d' & Hd' & Hev & Hm)|(Hd' & _)]; [|congruence].
+      assert (d' = d) by congruence. subst d'. exists nk. rewrite set_nth_same by exact Hlt. auto.
+    + rewrite Hds in Hd by exact Hne. destruct (i_live _ _ I j d Hd) as (y & Hy & Hev & Hm). cbn [st_heap st_keys] in *.
+      exists y. rewrite set_nth_other by auto. split; [exact Hy|].
+      destruct (view_frame h h' y (Hfr j y Hne Hy)) as [Hv Hmm]. rewrite Hv. auto.
+  - intros j Hd. destruct (Nat.eq_dec j k) as [->|Hne].
+    + destruct Hkth as [(d' & Hd' & _)|(_ & H1)]; [congruence|].
+      exists nk. rewrite set_nth_same by exact Hlt. auto.
+    + rewrite Hds in Hd by exact Hne. destruct (i_dead _ _ I j Hd) as (y & Hy & H1). cbn [st_keys] in *.
+      exists y. rewrite set_nth_other by auto. auto.
+Qed.
+
+(* zeroing a key leaves every slice of every other key as it was *)
+Lemma zero_opt_frame h o b : (forall a, o = Some a -> disj a b) -> rd (zero_opt h o) b = rd h b.
+Proof. intros H. destruct o as [a|]; [|reflexivity]. cbn [zero_opt]. apply rd_zero_disj. auto. Qed.
+
+Lemma zero_heap_frame h xk b : (forall a, In a (owned xk) -> disj a b) -> rd (zero_heap h xk) b = rd h b.
+Proof.
+  intros H. unfold zero_heap.
+  rewrite !zero_opt_frame; [reflexivity| | | |]; intros a E; apply H; apply in_owned; auto 6.
+Qed.
+
+Lemma zero_heap_length h xk : length (zero_heap h xk) = length h.
+Proof. unfold zero_heap. rewrite !zero_opt_length. reflexivity. Qed.
+
+Lemma zero_opt_nth h o i : (forall a, o = Some a -> s_id a <> i) -> nth i (zero_opt h o) [] = nth i h [].
+Proof.
+  intros H. destruct o as [a|]; [|reflexivity]. cbn [zero_opt]. rewrite nth_zero_slc.
+  destruct (Nat.eqb_spec i (s_id a)) as [E|]; [|reflexivity]. exfalso. apply (H a eq_refl). auto.
+Qed.
+
+Lemma zero_heap_nth h xk i : (forall a, In a (owned xk) -> s_id a <> i) -> nth i (zero_heap h xk) [] = nth i h [].
+Proof.
+  intros H. unfold zero_heap.
+  rewrite !zero_opt_nth; [reflexivity| | | |]; intros a E; apply H; apply in_owned; auto 6.
+Qed.
+
+Lemma inv_zero s ds k xk :
+  inv s ds -> nth_error (st_keys s) k = Some xk ->
+  inv {| st_heap := zero_heap (st_heap s) xk; st_keys := set_nth (st_keys s) k (zeroed_key xk) |} (set_nth ds k None).
+Proof.
+  intros I Hk. pose proof (nth_error_In' _ _ _ Hk) as Hkin.
+  assert (Hltd : (k < length ds)%nat) by (rewrite <- (i_len _ _ I); apply (nth_error_lt _ _ _ Hk)).
+  apply (inv_replace s ds (set_nth ds k None) k xk (zeroed_key xk)); auto.
+  - apply zero_heap_length.
+  - intros i Hi. apply zero_heap_nth. intros a Ha E. pose proof (i_dyn _ _ I xk a Hkin Ha). lia.
+  - intros a Ha. apply in_owned in Ha. cbn [zeroed_key x_key x_pub x_cc x_fp] in Ha. apply in_owned.
+    destruct Ha as [H|[H|[H|H]]]; auto. discriminate.
+  - intros v Hv. apply in_vers in Hv. discriminate.
+  - apply set_nth_length.
+  - intros j Hj. apply set_nth_other. auto.
+  - intros j y Hj Hy b Hb. apply zero_heap_frame. intros a Ha.
+    apply in_app_iff in Hb. destruct Hb as [Hb|Hb].
+    + apply (i_sep1 _ _ I j k y xk a b); auto.
+    + apply (i_sep2 _ _ I y xk a b); auto. apply (nth_error_In' _ _ _ Hy).
+  - right. rewrite set_nth_same by exact Hltd. split; [reflexivity|]. repeat split; reflexivity.
+Qed.
+
+(* ---------- one step of the heap machine against one step of the trace machine ---------- *)
+Definition step_ok (s : state) (ds : list (option deriv)) (r : state * outcome) (t : list (option deriv) * option outcome) : Prop :=
+  inv (fst r) (fst t) /\ agree_out (snd r) (snd t).
+
+Lemma lookup_none s ds k : inv s ds -> nth_error (st_keys s) k = None -> nth_error ds k = None.
+Proof. intros I H. apply nth_error_None. rewrite <- (i_len _ _ I). apply nth_error_None. exact H. Qed.
+
+Lemma lookup_some s ds k xk : inv s ds -> nth_error (st_keys s) k = Some xk ->
+  (nth_error ds k = Some None /\ dead_key xk) \/
+  (exists d, nth_error ds k = Some (Some d) /\ eval D d = Ok (view (st_heap s) xk) /\ memo_ok (st_heap s) xk).
+Proof.
+  intros I H. pose proof (nth_error_lt _ _ _ H) as Hlt. rewrite (i_len _ _ I) in Hlt.
+  destruct (nth_error ds k) as [[d|]|] eqn:E; [| |apply nth_error_None in E; lia].
+  - right. exists d. split; [reflexivity|]. destruct (i_live _ _ I k d E) as (y & Hy & H1 & H2). assert (y = xk) by congruence. subst y. auto.
+  - left. split; [reflexivity|]. destruct (i_dead _ _ I k E) as (y & Hy & H1). assert (y = xk) by congruence. subst y. auto.
+Qed.
+
+Lemma firstn_skipn_rest {A} (l : list A) off : firstn (length l - off) (skipn off l) = skipn off l.
+Proof. apply firstn_all2. rewrite skipn_length. lia. Qed.
+
+Lemma rd_ver_static s ds vs : inv s ds -> (s_id vs < nstatic)%nat -> forall ext, rd (st_heap s ++ ext) vs = rd statics vs.
+Proof.
+  intros I Hv ext. rewrite rd_app by (pose proof (i_nst _ _ I); lia). apply rd_static; [apply (i_stat _ _ I) | exact Hv].
+Qed.
+
+Lemma new_master_ok s ds seed net : inv s ds -> step_ok s ds (new_master D s seed net) (tpush D ds (DMaster seed net)).
+Proof.
+  intros I. unfold new_master, tpush. cbn [eval]. destruct (master_val D seed) as [lr|e|p] eqn:E; cbn [rbind].
+  2,3: split; cbn [fst snd agree_out]; auto.
+  unfold push. split; cbn [fst snd agree_out]; [|rewrite (i_len _ _ I); reflexivity].
+  apply inv_push; [exact I| | | |reflexivity].
+  - intros a Ha. apply in_owned in Ha. cbn [x_key x_pub x_cc x_fp length] in Ha.
+    destruct Ha as [H|[H|[H|H]]]; try discriminate; injection H as <-; cbn [sub whole s_id length]; lia.
+  - intros v Hv. apply in_vers in Hv. cbn [x_ver] in Hv. injection Hv as <-. left. apply static_priv_ok.
+  - cbn [eval]. rewrite E. cbn [rbind]. f_equal. unfold view. cbn [x_ver x_key x_cc x_fp x_depth x_num x_priv rdo]. f_equal.
+    + rewrite (rd_ver_static s ds) by (exact I || apply static_priv_ok). symmetry. apply static_priv_ok.
+    + replace (length (st_heap s)) with (length (st_heap s) + 0)%nat by lia. rewrite rd_sub_new. reflexivity.
+    + replace (length (st_heap s)) with (length (st_heap s) + 0)%nat by lia. rewrite rd_sub_new. cbn [nth].
+      symmetry. apply firstn_skipn_rest.
+    + replace (S (length (st_heap s))) with (length (st_heap s) + 1)%nat by lia. symmetry. apply rd_whole_new. reflexivity.
+Qed.
+
+Lemma string_val_fields dec f : string_val D dec = Ok f ->
+  f_ver f = (0, 4)%nat /\ f_fp f = (5, 9)%nat /\ f_cc f = (13, 45)%nat /\ (f_key f = (45, 78)%nat \/ f_key f = (46, 78)%nat).
+Proof.
+  unfold string_val.
+  repeat (match goal with
+          | |- (if ?c then _ else _) = _ -> _ => destruct c
+          | |- (match ?c with Ok _ => _ | Err _ => _ | Panic _ => _ end) = _ -> _ => destruct c
+          end); try discriminate; intros H; injection H as <-; vm_compute; auto.
+Qed.
+
+Lemma from_string_ok s ds dec : inv s ds -> step_ok s ds (from_string D s dec) (tpush D ds (DString dec)).
+Proof.
+  intros I. unfold from_string, tpush. cbn [eval]. destruct (string_val D dec) as [f|e|p] eqn:E; cbn [rbind].
+  2,3: split; cbn [fst snd agree_out]; auto.
+  destruct (string_val_fields _ _ E) as (Fv & Ff & Fc & Fk).
+  unfold push. split; cbn [fst snd agree_out]; [|rewrite (i_len _ _ I); reflexivity].
+  apply inv_push; [exact I| | | |reflexivity].
+  - intros a Ha. apply in_owned in Ha. cbn [x_key x_pub x_cc x_fp length] in Ha.
+    destruct Ha as [H|[H|[H|H]]]; try discriminate; injection H as <-; cbn [rng sub s_id length]; lia.
+  - intros v Hv. apply in_vers in Hv. cbn [x_ver] in Hv. injection Hv as <-. right. right.
+    split; [cbn [rng sub s_id length]; lia|].
+    intros a Ha. apply in_owned in Ha. cbn [x_key x_pub x_cc x_fp] in Ha. unfold disj. right.
+    destruct Ha as [H|[H|[H|H]]]; try discriminate; injection H as <-; rewrite Fv; cbn [rng sub s_off s_len fst snd].
+    + destruct Fk as [-> | ->]; cbn [fst snd]; lia.
+    + rewrite Fc. cbn [fst snd]. lia.
+    + rewrite Ff. cbn [fst snd]. lia.
+  - cbn [eval]. rewrite E. cbn [rbind]. f_equal. unfold view. cbn [x_ver x_key x_cc x_fp x_depth x_num x_priv rdo]. unfold rng.
+    replace (length (st_heap s)) with (length (st_heap s) + 0)%nat by lia. rewrite !rd_sub_new. reflexivity.
+Qed.
+
+Lemma new_ext_ok s ds ver key cc fp depth num priv : inv s ds ->
+  step_ok s ds (new_ext s ver key cc fp depth num priv) (tpush D ds (DExt ver key cc fp depth num priv)).
+Proof.
+  intros I. unfold new_ext, tpush. cbn [eval]. unfold push. split; cbn [fst snd agree_out]; [|rewrite (i_len _ _ I); reflexivity].
+  apply inv_push; [exact I| | | |reflexivity].
+  - intros a Ha. apply in_owned in Ha. cbn [x_key x_pub x_cc x_fp length] in Ha.
+    destruct Ha as [H|[H|[H|H]]]; try discriminate; injection H as <-; cbn [whole s_id length]; lia.
+  - intros v Hv. apply in_vers in Hv. cbn [x_ver] in Hv. injection Hv as <-. right. right.
+    split; [cbn [whole s_id length]; lia|].
+    intros a Ha. apply in_owned in Ha. cbn [x_key x_pub x_cc x_fp] in Ha. left.
+    destruct Ha as [H|[H|[H|H]]]; try discriminate; injection H as <-; cbn [whole s_id]; lia.
+  - cbn [eval]. f_equal. unfold view. cbn [x_ver x_key x_cc x_fp x_depth x_num x_priv rdo].
+    replace (length (st_heap s)) with (length (st_heap s) + 0)%nat at 1 by lia.
+    rewrite !rd_whole_new by reflexivity. reflexivity.
+Qed.
+
+Lemma inv_same_keys s ds k xk : inv s ds -> nth_error (st_keys s) k = Some xk ->
+  inv {| st_heap := st_heap s; st_keys := set_nth (st_keys s) k xk |} ds.
+Proof. intros I H. rewrite (set_nth_id _ _ _ H). destruct s. exact I. Qed.
+
+Lemma set_net_ok s ds k net : inv s ds -> step_ok s ds (set_net s k net) (tstep D ds (SetNet k net)).
+Proof.
+  intros I. unfold set_net. cbn [tstep]. destruct (nth_error (st_keys s) k) as [xk|] eqn:Hk.
+  2:{ rewrite (lookup_none _ _ _ I Hk). split; cbn [fst snd agree_out]; auto. }
+  set (vs := if x_priv xk then static_priv net else static_pub net).
+  assert (Hvs : (s_id vs < nstatic)%nat /\ rd statics vs = net_ver (x_priv xk) net).
+  { unfold vs. destruct (x_priv xk); [apply static_priv_ok | apply static_pub_ok]. }
+  assert (Hvers : forall v, In v (vers (set_ver xk (Some vs))) -> In v (vers xk) \/ (s_id v < nstatic)%nat).
+  { intros v Hv. apply in_vers in Hv. cbn [set_ver x_ver] in Hv. injection Hv as <-. right. apply Hvs. }
+  destruct (lookup_some _ _ _ _ I Hk) as [(Hd & Hdk)|(d & Hd & Hev & Hm)]; rewrite Hd.
+  - split; cbn [fst snd agree_out]; [|reflexivity].
+    apply (inv_replace s ds ds k xk (set_ver xk (Some vs)) (st_heap s)); auto.
+  - split; cbn [fst snd agree_out]; [|reflexivity].
+    assert (Hlt : (k < length ds)%nat) by (apply nth_error_Some; congruence).
+    apply (inv_replace s ds _ k xk (set_ver xk (Some vs)) (st_heap s)); auto.
+    + apply set_nth_length.
+    + intros j Hj. apply set_nth_other. auto.
+    + left. exists (DSetNet d net). rewrite set_nth_same by exact Hlt. split; [reflexivity|]. split; [|exact Hm].
+      cbn [eval]. rewrite Hev. cbn [rbind]. f_equal. unfold view. cbn [set_ver x_ver x_key x_cc x_fp x_depth x_num x_priv rdo p_priv p_key p_cc p_fp p_depth p_num].
+      f_equal. rewrite (rd_static (st_heap s) vs (i_stat _ _ I)) by apply Hvs. symmetry. apply Hvs.
+Qed.
+
+Lemma zero_ok s ds k : inv s ds -> step_ok s ds (zero s k) (tstep D ds (Zero k)).
+Proof.
+  intros I. unfold zero. cbn [tstep]. destruct (nth_error (st_keys s) k) as [xk|] eqn:Hk.
+  2:{ rewrite (lookup_none _ _ _ I Hk). split; cbn [fst snd agree_out]; auto. }
+  assert (Hd : exists o, nth_error ds k = Some o).
+  { destruct (lookup_some _ _ _ _ I Hk) as [(Hd & _)|(d & Hd & _)]; eauto. }
+  destruct Hd as (o & ->). split; cbn [fst snd agree_out]; [|reflexivity]. apply inv_zero; assumption.
+Qed.
+
+Lemma string_zeroed_tie : litn lits_ExtendedKey_String 0 = 0%nat. Proof. reflexivity. Qed.
+
+Lemma string_of_ok s ds k : inv s ds -> step_ok s ds (string_of s k) (tstep D ds (StringOf k)).
+Proof.
+  intros I. unfold string_of. cbn [tstep]. unfold tobs. destruct (nth_error (st_keys s) k) as [xk|] eqn:Hk.
+  2:{ rewrite (lookup_none _ _ _ I Hk). split; cbn [fst snd agree_out]; auto. }
+  destruct (lookup_some _ _ _ _ I Hk) as [(Hd & Hdk)|(d & Hd & Hev & Hm)]; rewrite Hd.
+  - split; cbn [fst snd agree_out]; [exact I|]. destruct Hdk as (Hkn & _).
+    unfold string_obs, view. cbn [p_key]. rewrite Hkn. cbn [rdo length]. rewrite string_zeroed_tie. reflexivity.
+  - rewrite Hev. split; cbn [fst snd agree_out]; [exact I|reflexivity].
+Qed.
+
+Lemma ec_priv_ok s ds k : inv s ds -> step_ok s ds (ec_priv s k) (tstep D ds (ECPrivKey k)).
+Proof.
+  intros I. unfold ec_priv. cbn [tstep]. unfold tobs. destruct (nth_error (st_keys s) k) as [xk|] eqn:Hk.
+  2:{ rewrite (lookup_none _ _ _ I Hk). split; cbn [fst snd agree_out]; auto. }
+  destruct (lookup_some _ _ _ _ I Hk) as [(Hd & Hdk)|(d & Hd & Hev & Hm)]; rewrite Hd.
+  - split; cbn [fst snd agree_out]; [exact I|]. destruct Hdk as (_ & -> & _). reflexivity.
+  - rewrite Hev. split; cbn [fst snd agree_out]; [exact I|reflexivity].
+Qed.
+
+Lemma with_pub_ok s ds k (f : list N -> outcome) (z : option outcome) :
+  inv s ds -> agree_out (f []) z ->
+  step_ok s ds (with_pub D s k f) (tobs D ds k (fun pk => f (pub_val D (p_priv pk) (p_key pk))) z).
+Proof.
+  intros I Hz. unfold with_pub, tobs. destruct (nth_error (st_keys s) k) as [xk|] eqn:Hk.
+  2:{ rewrite (lookup_none _ _ _ I Hk). split; cbn [fst snd agree_out]; auto. }
+  destruct (pub_key_bytes D (st_heap s) xk) as [[h1 xk1] pbs] eqn:Ep.
+  assert (Hds : nth_error ds k = Some None \/ exists d, nth_error ds k = Some (Some d)).
+  { destruct (lookup_some _ _ _ _ I Hk) as [(Hd & _)|(d & Hd & _)]; eauto. }
+  destruct (pub_key_bytes_spec s ds k xk h1 xk1 pbs I Hk Ep Hds) as (I1 & _ & _ & Hpb & _).
+  destruct (lookup_some _ _ _ _ I Hk) as [(Hd & Hdk)|(d & Hd & Hev & Hm)]; rewrite Hd.
+  - split; cbn [fst snd]; [exact I1|]. rewrite Hpb. destruct Hdk as (-> & -> & _). exact Hz.
+  - rewrite Hev. split; cbn [fst snd agree_out]; [exact I1|]. rewrite Hpb. reflexivity.
+Qed.
+
+Lemma set_nth_twice {A} (l : list A) : forall k a b, set_nth (set_nth l k a) k b = set_nth l k b.
+Proof. induction l as [|y l IH]; intros [|k] a b; cbn [set_nth]; auto. f_equal. apply IH. Qed.
+
+Lemma view_fields h xk h1 xk1 : view h1 xk1 = view h xk ->
+  rdo h1 (x_ver xk1) = rdo h (x_ver xk) /\ rdo h1 (x_key xk1) = rdo h (x_key xk) /\
+  rdo h1 (x_cc xk1) = rdo h (x_cc xk) /\ rdo h1 (x_fp xk1) = rdo h (x_fp xk).
+Proof. intros H. unfold view in H. injection H as H1 H2 H3 H4 _ _ _. auto. Qed.
+
+Lemma view_scalars h xk h1 xk1 : view h1 xk1 = view h xk ->
+  x_depth xk1 = x_depth xk /\ x_num xk1 = x_num xk /\ x_priv xk1 = x_priv xk.
+Proof. intros H. unfold view in H. injection H as _ _ _ _ H5 H6 H7. auto. Qed.
+
+Lemma neuter_ok s ds k : inv s ds -> step_ok s ds (neuter D s k) (tstep D ds (Neuter k)).
+Proof.
+  intros I. unfold neuter. cbn [tstep]. destruct (nth_error (st_keys s) k) as [xk|] eqn:Hk.
+  2:{ rewrite (lookup_none _ _ _ I Hk). split; cbn [fst snd agree_out]; auto. }
+  destruct (lookup_some _ _ _ _ I Hk) as [(Hd & Hdk)|(d & Hd & Hev & Hm)]; rewrite Hd.
+  { destruct Hdk as (_ & -> & _). split; cbn [fst snd agree_out negb]; auto. }
+  rewrite Hev. cbn [view p_priv].
+  destruct (x_priv xk) eqn:Hp; cbn [negb]; [|split; cbn [fst snd agree_out]; auto].
+  unfold tpush. cbn [eval]. rewrite Hev. cbn [rbind]. unfold pure_neuter. cbn [view p_ver].
+  destruct (priv_to_pub (rdo (st_heap s) (x_ver xk))) as [[vs q]|] eqn:Ev; [|split; cbn [fst snd agree_out]; auto].
+  destruct (pub_key_bytes D (st_heap s) xk) as [[h1 xk1] pbs] eqn:Ep.
+  destruct (pub_key_bytes_spec s ds k xk h1 xk1 pbs I Hk Ep (or_intror (ex_intro _ d Hd)))
+    as (I1 & Hg1 & Hv1 & Hpb & Fver & Fcc & Ffp & Fkey & Fdep & Fnum & Fpriv & _ & _ & _).
+  destruct (view_fields _ _ _ _ Hv1) as (Vv & Vk & Vc & Vf).
+  destruct (priv_to_pub_ok _ _ _ Ev) as (Hvs & Hq).
+  unfold push. split; cbn [fst snd agree_out]; [|rewrite set_nth_length, (i_len _ _ I); reflexivity].
+  apply (inv_push {| st_heap := h1; st_keys := set_nth (st_keys s) k xk1 |} ds _ (DNeuter d)); [exact I1| | | |reflexivity]; cbn [st_heap st_keys].
+  - intros a Ha. apply in_owned in Ha. cbn [x_key x_pub x_cc x_fp] in Ha.
+    destruct Ha as [H|[H|[H|H]]]; try discriminate; injection H as <-; cbn [whole s_id length]; lia.
+  - intros v Hv. apply in_vers in Hv. cbn [x_ver] in Hv. injection Hv as <-. left. exact Hvs.
+  - cbn [eval]. rewrite Hev. cbn [rbind]. unfold pure_neuter. cbn [view p_ver]. rewrite Ev.
+    f_equal. unfold view. cbn [x_ver x_key x_cc x_fp x_depth x_num x_priv rdo p_key p_cc p_fp p_depth p_num].
+    f_equal.
+    + rewrite (rd_ver_static _ _ vs I1 Hvs). symmetry. exact Hq.
+    + replace (length h1) with (length h1 + 0)%nat by lia. rewrite rd_whole_new by reflexivity.
+      rewrite Hpb, Hp. reflexivity.
+    + rewrite rd_whole_new by reflexivity. symmetry. exact Vc.
+    + rewrite rd_whole_new by reflexivity. symmetry. exact Vf.
+    + symmetry. exact Fdep.
+    + symmetry. exact Fnum.
+Qed.
+
+Lemma tie_fp_len : fp_len = 4%nat. Proof. reflexivity. Qed.
+
+Lemma child_ok s ds k i : inv s ds -> step_ok s ds (child D s k i) (tstep D ds (Child k i)).
+Proof.
+  intros I. unfold child. cbn [tstep]. destruct (nth_error (st_keys s) k) as [xk|] eqn:Hk.
+  2:{ rewrite (lookup_none _ _ _ I Hk). split; cbn [fst snd agree_out]; auto. }
+  destruct (lookup_some _ _ _ _ I Hk) as [(Hd & Hdk)|(d & Hd & Hev & Hm)]; rewrite Hd.
+  { (* a zeroed key: never derives *)
+    destruct Hdk as (Hkn & Hpf & Hdp). rewrite Hdp, Hpf. change (0 =? max_depth) with false. cbv iota. cbn [negb andb].
+    destruct (is_hard i) eqn:Hh; [split; cbn [fst snd agree_out]; auto|].
+    unfold pub_key_bytes. rewrite Hpf. cbn [negb]. rewrite Hpf, Hkn. cbn [rdo].
+    unfold child_core. rewrite Hh.
+    destruct (negb _); cbn [rbind].
+    - split; cbn [fst snd agree_out]; [apply inv_same_keys; assumption | eauto].
+    - destruct (pub_add_nil (firstn (length (d_hmac512 D (rdo (st_heap s) (x_cc xk)) (child_data false [] i)) / litn lits_ExtendedKey_Child 3)
+                  (d_hmac512 D (rdo (st_heap s) (x_cc xk)) (child_data false [] i)))) as (e & ->).
+      cbn [rbind]. split; cbn [fst snd agree_out]; [apply inv_same_keys; assumption | eauto]. }
+  (* a live key *)
+  unfold tpush. cbn [eval]. rewrite Hev. cbn [rbind]. unfold pure_child. cbn [view p_depth p_priv p_key p_cc p_ver].
+  destruct (x_depth xk =? max_depth) eqn:Edep; [split; cbn [fst snd agree_out]; auto|].
+  destruct (negb (x_priv xk) && is_hard i) eqn:Hnh; [split; cbn [fst snd agree_out]; auto|].
+  (* first pubKeyBytes (non-hardened path) *)
+  assert (Hstep1 : exists h1 xk1 keyish,
+            (if is_hard i then (st_heap s, xk, x_key xk) else pub_key_bytes D (st_heap s) xk) = (h1, xk1, keyish) /\
+            inv {| st_heap := h1; st_keys := set_nth (st_keys s) k xk1 |} ds /\
+            nth_error (set_nth (st_keys s) k xk1) k = Some xk1 /\ view h1 xk1 = view (st_heap s) xk /\
+            rdo h1 keyish = (if is_hard i then rdo (st_heap s) (x_key xk) else pub_val D (x_priv xk) (rdo (st_heap s) (x_key xk))) /\
+            x_priv xk1 = x_priv xk).
+  { destruct (is_hard i).
+    - exists (st_heap s), xk, (x_key xk). split; [reflexivity|]. split; [apply inv_same_keys; assumption|].
+      rewrite (set_nth_id _ _ _ Hk). auto.
+    - destruct (pub_key_bytes D (st_heap s) xk) as [[h1 xk1] pbs] eqn:Ep. exists h1, xk1, pbs. split; [reflexivity|].
+      destruct (pub_key_bytes_spec s ds k xk h1 xk1 pbs I Hk Ep (or_intror (ex_intro _ d Hd)))
+        as (I1 & Hg1 & Hv1 & Hpb & _ & _ & _ & _ & _ & _ & Fpriv & _). auto 10. }
+  destruct Hstep1 as (h1 & xk1 & keyish & -> & I1 & Hg1 & Hv1 & Hki & Fp1).
+  destruct (view_fields _ _ _ _ Hv1) as (Vv & Vk & Vc & Vf).
+  rewrite Fp1, Vk, Vc, Hki.
+  destruct (child_core D (x_priv xk) (rdo (st_heap s) (x_key xk))
+               (if is_hard i then rdo (st_heap s) (x_key xk) else pub_val D (x_priv xk) (rdo (st_heap s) (x_key xk)))
+               (rdo (st_heap s) (x_cc xk)) i) as [[ilr ck]|e|p] eqn:Ecc; cbn [rbind].
+  2,3: split; cbn [fst snd agree_out]; auto.
+  (* second pubKeyBytes (fingerprint) *)
+  destruct (pub_key_bytes D h1 xk1) as [[h2 xk2] pbs] eqn:Ep2.
+  destruct (pub_key_bytes_spec {| st_heap := h1; st_keys := set_nth (st_keys s) k xk1 |} ds k xk1 h2 xk2 pbs I1 Hg1 Ep2
+              (or_intror (ex_intro _ d Hd)))
+    as (I2 & Hg2 & Hv2 & Hpb2 & Fver & _ & _ & _ & Fdep & _ & Fpriv & _ & _ & _).
+  cbn [st_heap st_keys] in *. rewrite set_nth_twice in I2, Hg2.
+  destruct (view_fields _ _ _ _ Hv2) as (Vv2 & Vk2 & _ & _).
+  unfold push. split; cbn [fst snd agree_out]; [|rewrite set_nth_length, (i_len _ _ I); reflexivity].
+  apply (inv_push {| st_heap := h2; st_keys := set_nth (st_keys s) k xk2 |} ds _ (DChild d i)); [exact I2| | | |reflexivity]; cbn [st_heap st_keys].
+  - intros a Ha. apply in_owned in Ha. cbn [x_key x_pub x_cc x_fp] in Ha.
+    destruct Ha as [H|[H|[H|H]]]; try discriminate; injection H as <-; cbn [whole sub s_id length]; lia.
+  - intros v Hv. right. left. exists xk2. split; [apply (nth_error_In' _ _ _ Hg2) | exact Hv].
+  - cbn [eval]. rewrite Hev. cbn [rbind]. unfold pure_child. cbn [view p_depth p_priv p_key p_cc p_ver].
+    rewrite Edep, Hnh, Ecc. cbn [rbind].
+    destruct (view_scalars _ _ _ _ Hv1) as (Sd1 & _ & _). destruct (view_scalars _ _ _ _ Hv2) as (Sd2 & _ & Sp2).
+    assert (Hbv : forall sv, x_ver xk2 = Some sv -> (s_id sv < length h2)%nat).
+    { intros sv Hsv. apply (i_bound _ _ I2 xk2 sv (nth_error_In' _ _ _ Hg2)). apply in_app_iff. right. apply in_vers. exact Hsv. }
+    f_equal. unfold view. cbn [x_ver x_key x_cc x_fp x_depth x_num x_priv rdo].
+    f_equal.
+    + rewrite rdo_app by exact Hbv. rewrite Vv2. exact (eq_sym Vv).
+    + rewrite rd_whole_new by reflexivity. reflexivity.
+    + replace (length h2) with (length h2 + 0)%nat by lia. rewrite rd_sub_new. cbn [nth]. symmetry. apply firstn_skipn_rest.
+    + rewrite rd_sub_new. cbn [nth skipn]. rewrite Hpb2, Fp1, Vk. reflexivity.
+    + rewrite Sd2, Sd1. reflexivity.
+    + rewrite Sp2, Fp1. reflexivity.
+Qed.
+
+Lemma step_inv s ds o : inv s ds -> step_ok s ds (step D s o) (tstep D ds o).
+Proof.
+  intros I. destruct o; cbn [step step_gen tstep].
+  - apply new_master_ok; exact I.
+  - apply from_string_ok; exact I.
+  - apply new_ext_ok; exact I.
+  - apply child_ok; exact I.
+  - apply neuter_ok; exact I.
+  - apply set_net_ok; exact I.
+  - apply zero_ok; exact I.
+  - apply string_of_ok; exact I.
+  - apply with_pub_ok; [exact I|]. destruct parse_pub_nil as (e & ->). cbn [res_out agree_out]. eauto.
+  - apply ec_priv_ok; exact I.
+  - apply with_pub_ok; [exact I|]. reflexivity.
+Qed.
+
+Lemma run_inv ops : forall s ds, inv s ds ->
+  inv (fst (run D s ops)) (fst (trace D ds ops)) /\ Forall2 agree_out (snd (run D s ops)) (snd (trace D ds ops)).
+Proof.
+  induction ops as [|o ops IH]; intros s ds I.
+  - cbn. split; [exact I | constructor].
+  - unfold run in *. cbn [run_gen trace]. destruct (step_inv s ds o I) as [I1 Ho]. unfold step in *.
+    destruct (step_gen D false s o) as [s1 r]. destruct (tstep D ds o) as [ds1 pr]. cbn [fst snd] in *.
+    destruct (IH s1 ds1 I1) as [I2 Hos].
+    destruct (run_gen D false s1 ops) as [s2 rs]. destruct (trace D ds1 ops) as [ds2 prs]. cbn [fst snd] in *.
+    split; [exact I2 | constructor; assumption].
+Qed.
+
+(* Every key that has not itself been zeroed denotes, through the heap, the pure value of its own
+   derivation; and every outcome of every operation is the one computed from those pure values. *)
+Theorem keys_independent ops :
+  let s := fst (run D init ops) in let ds := fst (trace D [] ops) in
+  length (st_keys s) = length ds /\
+  Forall2 agree_out (snd (run D init ops)) (snd (trace D [] ops)) /\
+  (forall j d, nth_error ds j = Some (Some d) ->
+     exists k, nth_error (st_keys s) j = Some k /\ eval D d = Ok (view (st_heap s) k)) /\
+  (* the separation that makes it so *)
+  (forall j j' k k' a b, j <> j' -> nth_error (st_keys s) j = Some k -> nth_error (st_keys s) j' = Some k' ->
+     In a (owned k') -> In b (owned k) -> disj a b) /\
+  (forall k k' a v, In k (st_keys s) -> In k' (st_keys s) -> In a (owned k') -> In v (vers k) -> disj a v).
+Proof.
+  intros s ds. destruct (run_inv ops init [] inv_init) as [I Ho]. fold s ds in I.
+  split; [apply (i_len _ _ I)|]. split; [exact Ho|]. split; [|split; [apply (i_sep1 _ _ I) | apply (i_sep2 _ _ I)]].
+  intros j d Hd. destruct (i_live _ _ I j d Hd) as (k & Hk & Hev & _). eauto.
 Qed.
 
 End Proofs.
+
+(* ---------- Zero really erases (holds in every state, whatever the aliasing) ---------- *)
+Lemma zero_opt_allz h o b : allz (rd h b) -> allz (rd (zero_opt h o) b).
+Proof. intros H. destruct o as [a|]; [apply rd_zero_allz; exact H | exact H]. Qed.
+
+Lemma zero_heap_erases h xk a : In a (owned xk) -> allz (rd (zero_heap h xk) a) /\ length (rd (zero_heap h xk) a) = length (rd h a).
+Proof.
+  intros Ha. split.
+  - apply in_owned in Ha. unfold zero_heap. destruct Ha as [H|[H|[H|H]]]; rewrite H; cbn [zero_opt].
+    + do 3 apply zero_opt_allz. apply rd_zero_same_allz.
+    + do 2 apply zero_opt_allz. apply rd_zero_same_allz.
+    + apply zero_opt_allz. apply rd_zero_same_allz.
+    + apply rd_zero_same_allz.
+  - unfold zero_heap.
+    assert (Hl : forall h o, length (rd (zero_opt h o) a) = length (rd h a)).
+    { intros h0 [x|]; [apply rd_zero_length | reflexivity]. }
+    rewrite !Hl. reflexivity.
+Qed.
+
+Theorem zero_erases D s k xk :
+  nth_error (st_keys s) k = Some xk ->
+  let s' := fst (step D s (Zero k)) in
+  snd (step D s (Zero k)) = ODone /\
+  (* every slice the key referenced for key material, cached public key, chain code, fingerprint reads all-zero *)
+  (forall a, In a (owned xk) -> allz (rd (st_heap s') a) /\ length (rd (st_heap s') a) = length (rd (st_heap s) a)) /\
+  (* the key reports zeroed and yields no private key *)
+  snd (step D s' (StringOf k)) = OZeroed /\
+  snd (step D s' (ECPrivKey k)) = OErr 1 /\
+  (exists xk', nth_error (st_keys s') k = Some xk' /\ x_key xk' = None /\ x_ver xk' = None /\ x_priv xk' = false /\
+               x_depth xk' = 0 /\ x_num xk' = 0).
+Proof.
+  intros Hk. cbn [step step_gen]. unfold zero. rewrite Hk. cbn [fst snd st_heap st_keys].
+  pose proof (nth_error_lt _ _ _ Hk) as Hlt.
+  split; [reflexivity|]. split; [intros a Ha; apply zero_heap_erases; exact Ha|].
+  unfold string_of, ec_priv. cbn [st_keys st_heap]. rewrite set_nth_same by exact Hlt.
+  split; [reflexivity|]. split; [reflexivity|].
+  exists (zeroed_key xk). repeat split; reflexivity.
+Qed.
